@@ -24,7 +24,9 @@ def check_doc(ck, case, rnd, tmp, do_sax=True):
     shapes = [k for k in range(1, n + 1) if nodes[k - 1]['kind'] != 'g']
     if not shapes:
         return
-    text = sm.render(case, rnd)
+    # attribute values: small integers, or the same shapes scaled and moved to coordinates that need many significant digits
+    G = None if rnd.random() < 0.6 else rnd.choice([(12.0625, 350218.4375), (1e-3, 0.000123456789), (3.0, -77.7)])
+    text = sm.render(case, rnd, G=G)
     fn = os.path.join(tmp, 'doc.svg')
     with open(fn, 'w') as f:
         f.write(text)
@@ -36,6 +38,13 @@ def check_doc(ck, case, rnd, tmp, do_sax=True):
     ck.sample('doc/%d' % n, {'svg': text})
     refs = {k: sm.ref_segments(nodes[k - 1]['kind'], case['attrs'][k - 1], case['geom'][k - 1]) for k in shapes}
     ID = [1, 0, 0, 1, 0, 0]
+
+    def withG(M, k):
+        # shape(attrs scaled by G) = G(shape(attrs)); <path> elements keep their d-string
+        if G is None or nodes[k - 1]['kind'] == 'path':
+            return M
+        sc, off = G
+        return [M[0] * sc, M[1] * sc, M[2] * sc, M[3] * sc, M[0] * off + M[2] * off + M[4], M[1] * off + M[3] * off + M[5]]
 
     def bad(api, key, what, exp=None, obs=None):
         ck.disagree(key='%s/%s' % (api, key), site='svgpathtools/' + {'Document': 'document.py', 'svg2paths': 'svg_to_paths.py', 'SaxDocument': 'svg_io_sax.py'}[api.split('.')[0]],
@@ -61,8 +70,8 @@ def check_doc(ck, case, rnd, tmp, do_sax=True):
                 sorted('n%d' % k for k in ids_expected), sorted(got))
             return
         for k in ids_expected:
-            M = expect_M(k)
-            diff = sm.compare_path(list(got['n%d' % k]), refs[k], M)
+            M = withG(expect_M(k), k)
+            diff = sm.compare_path(list(got['n%d' % k]), refs[k], M, tol=1e-6 if G is None else 1e-9 * 4e5)
             if diff:
                 kind, has_arc, has_tf = kinds_of(k)
                 if kind == 'rrect' and len(got['n%d' % k]) == 4:
@@ -145,6 +154,8 @@ def run(ck):
         # exhaustive: root + 2 nodes (every kind x every transform list x both nestings)
         ck.tlc('SvgDoc', d % (3, allk, 10), workers=1, coverage=False, on_case=lambda c: on_case(c, 3 if quick else 1), timeout=3000)
         # deeper / wider trees by simulation
+        # all nestings of root + 3 nodes (grandchild groups) for a reduced alphabet
+        ck.tlc('SvgDoc', d % (4, '{"line", "circle"}', 3), workers=1, coverage=False, on_case=lambda c: on_case(c, 2 if quick else 1), timeout=3000)
         for nn, num in ((5, 6), (7, 3)) if quick else ((5, 60), (7, 40), (9, 10)):
             ck.tlc('SvgDoc', d % (nn, allk, 10), workers=1, coverage=False, simulate=num, depth=2 * nn + 3, on_case=on_case, timeout=3000)
         ck.count('documents', st['n'])
